@@ -157,6 +157,7 @@ def run(chk, F):
     chk.floor("path-effects", 10, "(alloc 3 + alloc_zeroed 3 + realloc 3 + dealloc 1 paths)")
     chk.guard("rmw-only", "workspace", lambda: rmw_only(chk, F))
     chk.guard("peak-accessors", "Alloc", lambda: accessors(chk, F))
+    chk.guard("configured-limit", "Alloc", lambda: configured_limit(chk, F))
     chk.guard("global-allocator", "statics", lambda: statics(chk, F))
 
 
@@ -342,6 +343,34 @@ def accessors(chk, F):
     chk.decide(good, "peak-accessors", "child::become_child", "reset-then-get", "",
                "child resets the peak before handling a request and reads it after: %s" % names,
                "child does not bracket request handling with reset_max .. get_max: %s" % names)
+
+
+def configured_limit(chk, F):
+    """The ceiling the entry points compare against is the one the embedder configured: set_limit stores exactly its
+    argument, and the constructors initialise `limit` with exactly theirs."""
+    fn = F.find(CRATE, "Alloc::<A>::set_limit")
+    ps = sympath.enumerate_paths(fn)
+    stores = [ev for p in ps for ev in p.events if ev[0] == "call" and ev[2] == ATOMIC + "store" and field_of(ev[3][0]) == "limit"]
+    ok = len(ps) == 1 and len(stores) == 1 and stores[0][3][1] == ("arg", 2)
+    chk.decide(ok, "configured-limit", "Alloc::set_limit", "stores-its-argument", fn.where(),
+               "set_limit stores exactly the limit it is given",
+               "set_limit stores %s instead of its argument: the enforced ceiling is not the configured limit" % (
+                   [tstr(e[3][1])[:80] for e in stores] or "nothing"))
+    n = 0
+    for f in F.by_crate[CRATE]:
+        if not f.path.endswith(("::new", "::new_with")) or "Alloc" not in f.path:
+            continue
+        for i, j, st in f.stmts():
+            rv = st.get("rv", {})
+            if rv.get("k") == "agg" and rv.get("adt", "").endswith("alloc::Alloc"):
+                fields = dict(zip(rv["fields"], rv["ops"]))
+                src = facts.ap_str(f.apath(fields["limit"]))
+                n += 1
+                lim_arg = "arg1" if f.path.endswith("::new") else "arg2"
+                chk.decide(src.endswith("AtomicUsize>::new(%s)" % lim_arg) or src.endswith("::new(%s)" % lim_arg), "configured-limit", "Alloc::" + f.path.split("::")[-1], "initial-limit", f.where(i, j),
+                           "the constructor's limit argument initialises the limit", "Alloc.limit is initialised with %s" % src[:80])
+    if n < 2:
+        chk.anchor_lost("configured-limit", "Alloc constructors", "expected the two constructors of Alloc, found %d" % n)
 
 
 def statics(chk, F):
